@@ -1046,6 +1046,8 @@ fn main() {
         std::process::exit(run_replay(&model, f, &prop));
     }
 
+    // all byte strings are in scope here: do not hold the value generator to RFC length limits
+    vh_proto::gen::RFC_LIMITS.store(false, std::sync::atomic::Ordering::Relaxed);
     let corpus = load_corpus(&corpus_dir);
     let gen = generated_seeds(seed, if thorough { 40 } else { 5 }, if thorough { 65536 } else { 2000 });
     let n_gen = gen.len();
